@@ -155,9 +155,10 @@ class C01:
         if is_reward(rec):
             b0, b1 = bank(pre), bank(post)
             listed = {}
+            acc = dict(pre.get("canon") or []).get
             for key, f in f0.items():
                 for x in f["proofs"]:
-                    listed.setdefault(pk(x)[0], []).append(pk(x))
+                    listed.setdefault(acc(pk(x)[0], pk(x)[0]), []).append(pk(x))
             for u in rec["users"]:
                 gain = bal(b1, u) - bal(b0, u)
                 if gain > 0:
@@ -276,17 +277,20 @@ def c03(rec):
     for d in denoms:
         released = sum(bal(b0, a, d) - bal(b1, a, d) for a in gauge_accs)
         paid = 0
+        acc = dict(pre.get("canon") or []).get
         for u in rec["users"]:
             gain = bal(b1, u, d) - bal(b0, u, d)
-            w = tracker.get(u, 0)
+            # every spelling of this account that is counted is paid separately, to the one account
+            ws = [x for name, x in tracker.items() if acc(name, name) == u]
+            w = sum(ws)
             if u in gauge_accs:
                 continue
             paid += gain
             if w == 0 and gain != 0:
                 out.append(V("C03", "uncounted-account-paid", f"{u} was not counted at reward block {h} but its {d} balance moved by {gain}"))
             if w > 0 and total > 0 and released >= 0:
-                exp = w * released // total
-                if abs(gain - exp) > 1:
+                exp = sum(x * released // total for x in ws)
+                if abs(gain - exp) > len(ws):
                     out.append(V("C03", "share-off", f"reward block {h}: {u} counted for {w} of {total} received {gain}{d}, its share of the {released} released is {exp}"))
         if paid > released:
             out.append(V("C03", "paid-more-than-released", f"reward block {h}: {paid}{d} paid out, {released}{d} released from gauges"))
